@@ -86,12 +86,13 @@ CaseOutcome(cs) ==
 Init == c \in Seeds /\ out = "seed" /\ (IF Part \in {"abs", "loop"} THEN SeedState ELSE Parked)
 Choose == /\ phase = "seed"
           /\ c' \in CasesOf(c)
+          /\ cfg' = MCExpand(c')
           /\ phase' = "start"
           /\ UNCHANGED <<out, val, pending, diag, k, done, hist, scan, pos, progress, passes>>
 Enumerate == /\ c.kind = "seed"
              /\ c' \in CasesOf(c)
              /\ out' = CaseOutcome(c')
-             /\ UNCHANGED <<val, pending, phase, diag, k, done, hist, scan, pos, progress, passes>>
+             /\ UNCHANGED <<cfg, val, pending, phase, diag, k, done, hist, scan, pos, progress, passes>>
 Next == IF Part = "abs" THEN Choose \/ AbsNext \/ Halt
         ELSE IF Part = "loop" THEN Choose \/ LoopNext \/ Halt
         ELSE Enumerate
